@@ -18,6 +18,13 @@ CLAIMED = {
              "Conflict/requirement graph walking in the validator is out of reach and not claimed.",
         note="Detects changes to check_explicit/set_source/is_explicit/ValueSource order only.",
         ref="2 C03"),
+    "C04": dict(
+        text="Bounded model checking of the value parsers' decisions: ranged integer parsers on CONCRETE boundary literals against EVERY range (lo, hi over all 64-bit values, "
+             "9 bound shapes) for each target width; boolean literal tables with a symbolic ASCII case per letter; possible-value matching with symbolic case and ignore_case. "
+             "Fully symbolic candidate strings are out of reach (DESIGN 0); typed access is not yet covered.",
+        note="Stubs cut message construction only (fmt::format, Error::with_cmd, Error::value_validation/invalid_value, format_bounds, usage for the non-UTF-8 path); "
+             "str::to_lowercase is replaced by to_ascii_lowercase (std's contract on ASCII-only input; inputs are ASCII-only).",
+        ref="2 C04"),
     "C06": dict(
         text="PARTIAL. Source lattice (ValueSource order, set_source keeps the maximum, explicit-ness) for all source sequences <= 3, and the implicit default / "
              "missing-value tables of every ArgAction incl. what Arg::_build installs. Phase order in the parser is out of reach.",
@@ -49,6 +56,11 @@ CLAIMED = {
              "RawArgs cursor against an index model: one operation from an arbitrary reachable state (inductive step) plus symbolic op sequences up to 3-5; insert from concrete index states.",
         note="Bounds in evidence. insert with symbolic index is beyond CBMC (17-24 GB) and is checked from each of the 6 concrete index states of a 3-item list.",
         ref="2 C14"),
+    "C20": dict(
+        text="PARTIAL. Width accounting (display_width vs an ANSI-skip reference) and word splitting (find_words_ascii_space: consecutive non-empty pieces, cuts only at space->non-space) "
+             "for EVERY ASCII string up to the length bound. The line filler and end-to-end wrap are out of reach (DESIGN 0), so the width-bound and content-preservation statements for whole texts are not decided.",
+        note="Feature unicode off (every char width 1); ASCII alphabet (128 values per byte).",
+        ref="2 C20"),
 }
 
 NOT_APPLICABLE = {
@@ -109,9 +121,7 @@ def main():
 if __name__ == "__main__":
     # properties with a design but no finished check yet are listed as not applicable *for now*
     PENDING.update({
-        "C04": "check under construction in this session (ranged/bool/possible-value parser harnesses); will be claimed when it verifies",
         "C12": "check under construction (MIR->SMT engine for help padding arithmetic)",
-        "C20": "check under construction (display_width / find_words harnesses)",
     })
     for k in list(PENDING):
         if k in CLAIMED:
